@@ -1,3 +1,4 @@
+#define _GNU_SOURCE
 #include "shim.h"
 #include <string.h>
 #include <stdio.h>
@@ -179,6 +180,33 @@ void __wrap___assert_fail(const char *expr, const char *file, unsigned line, con
     if (shim_armed) { shim_aborted = 2; longjmp(shim_jb, 2); }
     fprintf(stderr, "%s\n", shim_assert_msg);
     __real_abort();
+}
+
+/* ---- hang watchdog ---- */
+#include <signal.h>
+#include <sys/time.h>
+volatile unsigned long shim_call_seq;
+static unsigned long wd_last_seq; static int wd_same;
+static void wd_tick(int sig)
+{
+    (void)sig;
+    if (!shim_armed) { wd_same = 0; return; }
+    if (shim_call_seq == wd_last_seq) wd_same++; else { wd_last_seq = shim_call_seq; wd_same = 0; }
+    if (wd_same >= 3) {
+        sigset_t m;
+        wd_same = 0;
+        sigemptyset(&m); sigaddset(&m, SIGALRM); sigprocmask(SIG_UNBLOCK, &m, NULL);
+        shim_aborted = 3;
+        longjmp(shim_jb, 3);           /* the library call in flight does not terminate */
+    }
+}
+void shim_watchdog_start(void)
+{
+    struct sigaction sa; struct itimerval it;
+    memset(&sa, 0, sizeof sa); sa.sa_handler = wd_tick; sigemptyset(&sa.sa_mask); sa.sa_flags = SA_NODEFER;
+    sigaction(SIGALRM, &sa, NULL);
+    it.it_interval.tv_sec = 1; it.it_interval.tv_usec = 0; it.it_value = it.it_interval;
+    setitimer(ITIMER_REAL, &it, NULL);
 }
 
 int __wrap_rand(void)
